@@ -237,6 +237,99 @@ func runValByTag(id int, data []byte, tag string, label string) {
 	emit(rec)
 }
 
+// findNested looks for a group with two or more entries whose first entry contains a group with
+// at least one entry; it returns the outer group's first member tag and the inner count tag.
+func findNested(items []*desc.Item) (outerFirst, innerCount string, ok bool) {
+	for _, it := range items {
+		switch it.Kind {
+		case 'C':
+			if a, b, ok := findNested(it.Items); ok {
+				return a, b, true
+			}
+		case 'G':
+			if len(it.Entries) >= 2 && len(it.Tpl) > 0 && it.Tpl[0].Kind == 'K' {
+				var inner func(es []*desc.Item) string
+				inner = func(es []*desc.Item) string {
+					for _, x := range es {
+						if x.Kind == 'G' && len(x.Entries) >= 1 {
+							return x.Tag
+						}
+						if x.Kind == 'C' {
+							if t := inner(x.Items); t != "" {
+								return t
+							}
+						}
+					}
+					return ""
+				}
+				if t := inner(it.Entries[0]); t != "" {
+					return it.Tpl[0].Tag, t, true
+				}
+			}
+			for _, e := range it.Entries {
+				if a, b, ok := findNested(e); ok {
+					return a, b, true
+				}
+			}
+		}
+	}
+	return "", "", false
+}
+
+// nestedCountCut damages what follows the count field of a group nested inside a non-last entry:
+// up to the start of the next outer entry the segments lose their '=' (or are replaced by junk or
+// by empty segments), so that the nested group's count field is followed by no field at all inside
+// its entry chunk. The message is re-framed and passes the integrity check.
+func nestedCountCut(r *rng.R, m *desc.Msg, b []byte) ([]byte, bool) {
+	outerFirst, innerCount, ok := findNested(m.Body)
+	if !ok {
+		return nil, false
+	}
+	fs, ok := splitFields(b)
+	if !ok || len(fs) < 4 {
+		return nil, false
+	}
+	var segs [][]byte
+	for _, f := range fs[2 : len(fs)-1] {
+		segs = append(segs, append(append(append([]byte{}, f.tag...), '='), f.val...))
+	}
+	i := -1
+	for k, sg := range segs {
+		if bytes.HasPrefix(sg, []byte(innerCount+"=")) {
+			i = k
+			break
+		}
+	}
+	if i < 0 {
+		return nil, false
+	}
+	j := len(segs)
+	for k := i + 1; k < len(segs); k++ {
+		if bytes.HasPrefix(segs[k], []byte(outerFirst+"=")) {
+			j = k
+			break
+		}
+	}
+	if j == len(segs) {
+		return nil, false // the nested group sits in the last outer entry
+	}
+	var mid [][]byte
+	switch r.Intn(4) {
+	case 0: // the following segments lose their '='
+		for _, sg := range segs[i+1 : j] {
+			mid = append(mid, bytes.ReplaceAll(sg, []byte("="), nil))
+		}
+	case 1: // replaced by one junk segment
+		mid = [][]byte{[]byte("junk")}
+	case 2: // replaced by an empty segment: doubled delimiter
+		mid = [][]byte{{}}
+	case 3: // nothing follows the count inside the entry
+	}
+	out := append(append(append([][]byte{}, segs[:i+1]...), mid...), segs[j:]...)
+	body := append(bytes.Join(out, []byte{1}), 1)
+	return frame(m.BsTag, m.BlTag, m.CsTag, m.Bs, body), true
+}
+
 func modeDecode(root *rng.R, n int) {
 	for i := 0; i < n; i++ {
 		r := root.Fork()
@@ -253,6 +346,12 @@ func modeDecode(root *rng.R, n int) {
 			runDecode(i, tm, frame(m.BsTag, m.BlTag, m.CsTag, m.Bs, hostileBody(r, m)), "framed-hostile")
 		case 3:
 			b, _ := m.Build().ToBytes()
+			if i%2 == 1 {
+				if d, ok := nestedCountCut(r, m, b); ok {
+					runDecode(i, tm, d, "nested-count-cut")
+					break
+				}
+			}
 			runDecode(i, tm, mutateValid(r, m, b), "mutated-valid")
 		case 4:
 			data := randomBytes(r, m)
